@@ -398,6 +398,59 @@ def line_labels():
     return out
 
 
+class SlowToRebuild:
+    """a result whose unpickling on the parent side takes a while: the window in which the backend process is already
+    gone while the parent's frontend thread is still receiving the outcome"""
+
+    def __init__(self, delay):
+        self.delay = delay
+
+    def __reduce__(self):
+        return (_slow_rebuild, (self.delay,))
+
+
+def _slow_rebuild(delay):
+    time.sleep(delay)
+    return 'rebuilt'
+
+
+def t_return_slow():
+    return [SlowToRebuild(1.5), 'payload']
+
+
+def slow_outcome_probe(res, addr):
+    """C01 on the parent side of a remote worker: whatever way the death is learnt (timed waits, is_alive polls), once it
+    is reported the outcome is definite and never changes afterwards"""
+    from pyworkers.remote import RemoteWorker
+    for mode in ('timed-wait', 'is_alive', 'timed-terminate'):
+        w = RemoteWorker(t_return_slow, host=addr)
+        t0 = time.time()
+        dead = False
+        while not dead and time.time() - t0 < 20:
+            if mode == 'timed-wait':
+                dead = w.wait(timeout=0.1) or not w.is_alive()
+            elif mode == 'is_alive':
+                dead = not w.is_alive(); time.sleep(0.02)
+            else:
+                time.sleep(0.3)
+                dead = w.terminate(timeout=0.1, force=False) or not w.is_alive()
+        first = (w.has_error, repr(w.result), type(w.error).__name__)
+        seen = {first}
+        t1 = time.time()
+        while time.time() - t1 < 2.5:
+            seen.add((w.has_error, repr(w.result), type(w.error).__name__)); time.sleep(0.05)
+        res.count('remote-slow-outcome:' + mode); res.case(('remote-slow-outcome', mode), nontrivial=True)
+        if not dead:
+            res.violation(dict(kind='remote', probe='slow-to-rebuild result', mode=mode, features=[]), 'the worker was never reported dead within 20 s')
+        elif first[0] is None or len(seen) != 1:
+            res.violation(dict(kind='remote', probe='slow-to-rebuild result', mode=mode, features=[]),
+                          f'worker reported dead (through {mode}) with outcome {first}; outcomes seen during the next 2.5 s: {sorted(map(str, seen))}', observed=str(first))
+        try:
+            w.terminate(timeout=2, force=True)
+        except Exception:
+            pass
+
+
 def remote_sweep(res, tier, single, sk, scratch, record, events_of):
     from pyworkers.remote_server import spawn_server
     servers = [spawn_server(('127.0.0.1', 0)) for _ in range(3)]     # spawned AFTER spawn_env(): their children load the tracer
@@ -436,6 +489,8 @@ def remote_sweep(res, tier, single, sk, scratch, record, events_of):
                 if ob == 'OAlive' and tgt != 'TLoop':
                     ob, why = run_remote(pers, tgt, plan, rb, servers[i % len(servers)].addr)
                 record('remote', pers, tgt, rb, plan, [(o - start, a) for o, a in plan], ob, why)
+        if not single:
+            slow_outcome_probe(res, servers[0].addr)
     finally:
         for sv in servers:
             try:
